@@ -3,3 +3,6 @@ import OlVerif.Props.C12
 #print axioms OlVerif.C12.dictSet_lookup_other
 #print axioms OlVerif.C12.copyOnto_lookup
 #print axioms OlVerif.C12.members
+#print axioms OlVerif.C12.class_shape
+#print axioms OlVerif.C12.member_store_load
+#print axioms OlVerif.C12.metaclass_keyword
